@@ -70,9 +70,48 @@ def path_counts(b, start, stops, counted, within=None):
     return go(start)
 
 
+DROPPERS = ('::dedup', '::dedup_by', '::dedup_by_key', '::retain', '::retain_mut', '::truncate', '::remove', '::swap_remove', '::pop', '::drain',
+            '::clear', '::split_off', '::filter', '::filter_map', '::skip', '::take', '::step_by', '::skip_while', '::take_while', '::nth',
+            '::unique', '::sort', '::sort_unstable', '::sort_by', '::reverse', '::rev')
+
+
+def statements_untouched(ck, m):
+    """C20.h — see RULES"""
+    from nl import locks
+    P = m.prog
+    ck.rule('C20.h', 'the commands executed are the pieces of the body, all of them, in their order: between the split at `;` and the loop that runs '
+                     'them the list is not shortened, filtered, de-duplicated or reordered (Vec::dedup / retain / truncate / remove / sort ..., '
+                     'Iterator::filter / skip / take ...) — `increment k;increment k` is two commands and owes two entries')
+    hb = http_loop(m)
+    n = 0
+    bad = []
+    for cb, cbi in P.callers().get(hb.id, []):
+        t = cb.term(cbi)
+        # the argument that is the list of statements: a Vec<&str> / slice of &str
+        for ai, a in enumerate(t['args']):
+            p_ = a.get('m') or a.get('c')
+            if not p_ or '&str' not in cb.locals[p_['l']] and 'str>' not in cb.locals[p_['l']]:
+                continue
+            n += 1
+            calls_, _params = locks.backward_slice(cb, a, control=True)
+            splits = [c for c in calls_ if callee_decl(cb.term(c)) in ('std::str::split', 'core::str::split') or callee_decl(cb.term(c)).endswith('str>::split')]
+            for c in sorted(calls_):
+                d = callee_decl(cb.term(c))
+                if d.endswith(DROPPERS) and not d.startswith(('core::str::', 'std::str::', 'std::string::')) and 'str>::' not in d:
+                    bad.append('%s (%s)' % (d, cb.loc(c)))
+            if not splits:
+                bad.append('the list handed to the loop does not come from a split of the body (%s)' % cb.loc(cbi))
+    ck.ob('C20.h', short(hb.id), 'statements-untouched', n > 0 and not bad,
+          'the list the loop runs is the split of the body, handed on as it is' if n > 0 and not bad else
+          'the list of statements is changed before the loop runs it: %s — a statement is not executed and every later entry moves up' % sorted(set(bad)),
+          '%s:%s' % (hb.file, hb.line))
+    ck.floor('C20.h', n, 1, 'statement lists handed to the HTTP loop')
+
+
 def run(ck, m):
     _run(ck, m)
     channel_rule(ck, m)
+    statements_untouched(ck, m)
     # the HTTP request is a whole session: its end must give the connection back (C17.a's session-end rules, repeated here)
     from nl import report
     from props import C17
